@@ -302,6 +302,7 @@ public:
 		if (answer)
 			return result(end(), false);
 
+		const size_t wptr(where - _arr); // index survives a reallocation, the pointer does not
 		if (_sz < _rsz)
 		{
 			memmove(where + 1, where, (end() - where) * sizeof(T));
@@ -310,7 +311,6 @@ public:
 		else
 		{
 			iterator new_arr(new T[_rsz = _sz + calc_reserve(_sz, _reserve)]);
-			const size_t wptr(where - _arr);
 			if (wptr > 0)
 				memcpy(new_arr, _arr, sizeof(T) * wptr);
 			memcpy(new_arr + wptr, what, sizeof(T));
@@ -319,7 +319,7 @@ public:
 			_arr = new_arr;
 		}
 		++_sz;
-		return result(where, true);
+		return result(_arr + wptr, true);
 	}
 
 	/*! Find the distance between two iterators
